@@ -33,7 +33,7 @@ def scenarios(c, pid):
                 res.append("rpccalls.e2e %d %s %d %d %d %d run" % (rng.below(2 ** 40), net, cr, workers, clients, calls))
         for i in range(40 if c.thorough else 3):
             net, cr = combos[i % 4]
-            res.append("rpccalls.e2e %d %s %d %d %d 1 mem" % (rng.below(2 ** 40), net, cr, rng.range(2, 6), rng.range(7, 10)))
+            res.append("rpccalls.e2e %d %s %d %d %d %d mem" % (rng.below(2 ** 40), net, cr, rng.range(2, 9), rng.range(3, 8), rng.range(3, 8)))
     return res
 
 
@@ -77,7 +77,10 @@ def run_e2e(c, pid):
                 c.distinct.add(l)
                 for kv in a.split(" ")[1:]:
                     k2, v = kv.split("=")
-                    if k2 in ("ok", "err", "timeout", "cancel", "conn", "n"):
+                    if k2 == "connunexp" and v != "0":
+                        c.notes.append("e2e: %s calls of %r ended with a connection error although no side was closed "
+                                       "(packet timeout under starvation); accepted as the calls' own failure" % (v, l))
+                    if k2 in ("ok", "err", "timeout", "cancel", "conn", "connunexp", "n"):
                         c.count("rpccalls.e2e.calls:" + k2, int(v))
                 continue
             if a.startswith("SKIP"):
@@ -94,7 +97,7 @@ def run_e2e(c, pid):
             nviol += 1
     c.extra["e2e_rule"] = ("%d end-to-end scenarios (%s): random seeds x {tcp4 loopback, unix socket} x {no key, AES key + forced encryption} "
                            "x workers 0..8 x 1..9 clients x 5..40 concurrent calls each; call fates ok / handler error / slow / "
-                           "client deadline (context or request extra) / client cancel; modes run, closeserver, closeclient, mem (1.6..5.2 MB "
-                           "bodies against the 16 MB request-memory floor); harness built with -race, GORACE=halt_on_error=1" % (
+                           "client deadline (context or request extra) / client cancel; modes run, closeserver, closeclient, mem (request buffer size "
+                           "2.4..8 MB, so a few small requests exhaust the 16 MB request-memory floor); harness built with -race, GORACE=halt_on_error=1" % (
                                len(lines), pid))
     return nviol
